@@ -139,3 +139,29 @@ def file_id(v, eng=None, st=None):
 
 def is_errev(e):
     return isinstance(e.ret, str) and e.ret == "err"
+
+
+
+def build_args(eng, st, fn, known):
+    """arguments for fn in declaration order: `known` is a list of (type regex, value) pairs consumed in order;
+    parameters that match none get a fresh symbolic value of their declared type (so that a changed signature
+    keeps the lemma group running instead of reading an uninitialised local)"""
+    pool = list(known)
+    args = []
+    for _l, ty in fn.args:
+        hit = None
+        for i, (rx, v) in enumerate(pool):
+            if re.search(rx, ty):
+                hit = i
+                break
+        if hit is not None:
+            args.append(pool.pop(hit)[1])
+            continue
+        m = re.match(r"^&(?:'\\w+ )?(?:mut )?(Vec<.*>)$", ty)
+        if m:
+            args.append(RefV(Cell(OpaqueV("Vec", "extra_arg_vec", {"items": []}))))
+        elif re.match(r"^Vec<.*>$", ty):
+            args.append(OpaqueV("Vec", "extra_arg_vec", {"items": []}))
+        else:
+            args.append(eng.fresh(st, ty, "extra_arg"))
+    return args
